@@ -203,7 +203,7 @@ def sym_fork(vc):
             m = it.module('dataflows.processors.parallelize')
             rows = row_stream(it, 'res')
             pred = ufunc('predicate') if with_pred else None
-            row_func = ufunc('row_func')
+            row_func = ufunc('row_func', pure=False)
             N = sym_int(it, 'num_processors')
             q_internal = mk_queue(it, 'q_internal')
             got = []
@@ -253,6 +253,10 @@ def sym_fork(vc):
                     ia = made.get('init')
                     check(it, 'workers-and-collector-wired-to-the-same-queues' + tag, ia is not None and ia[0] is N and
                           ia[1] is row_func and ia[2] is made.get('q_in') and ia[3] is q_internal)
+                # exactly once per selected row means: by ONE worker (work's contract) and by nobody else -- the parent hands the
+                # function to the pool and never applies it itself (not even to a copy: a shallow copy shares the nested values)
+                check(it, 'row-function-applied-by-the-workers-only' + tag,
+                      not [e for e in events if e.kind == 'Call' and getattr(e, 'target', None) in ('row_func', row_func)])
                 cover(it, 'iter-reachable' + tag)
 
             def w_end(it, env, cap, events):
@@ -329,9 +333,10 @@ def nat_parallelize(h):
 
             def f(row):
                 row['seen'] = row.get('seen', 0) + 1
+                row['tags'].append('x')          # a nested value edited in place: "exactly once" must hold for it too
             preds = {'default': None, 'all': (lambda r: True), 'none': (lambda r: False), 'some': (lambda r: r['i'] % 3 == 0),
                      'late': (lambda r: r['i'] >= n - 2)}
-            rows = [{'i': i, 'seen': 0} for i in range(n)]
+            rows = [{'i': i, 'seen': 0, 'tags': []} for i in range(n)]
             res = Flow(rows, parallelize(f, num_processors=N, predicate=preds[pattern])).results(on_error=None)[0]
             conn.send(('ok', res))
         except BaseException as e:
@@ -349,9 +354,9 @@ def nat_parallelize(h):
             got = a.recv()
             sel = {'default': lambda i: True, 'all': lambda i: True, 'none': lambda i: False, 'some': lambda i: i % 3 == 0,
                    'late': lambda i: i >= n - 2}[pattern]
-            want = sorted([(i, 1 if sel(i) else 0) for i in range(n)])
+            want = sorted([(i, 1 if sel(i) else 0, 1 if sel(i) else 0) for i in range(n)])
             if got[0] == 'ok':
-                out = sorted((r['i'], r['seen']) for r in got[1][0]) if got[1] else []
+                out = sorted((r['i'], r['seen'], len(r['tags'])) for r in got[1][0]) if got[1] else []
                 ok = out == want
                 note = out
         p.join(5)
@@ -362,7 +367,10 @@ def nat_parallelize(h):
             break       # one run that does not terminate decides; do not wait a minute for each remaining configuration
 
 
+from contracts import C10 as _K10   # noqa: E402  (ResourceMatcher: the contract every selector-taking step is checked against)
+
 ITEMS = [
+    _K10._mk_matcher_item(),
     Item('producer', sym_producer, [], PZ + '::producer'),
     Item('work', sym_work, [], PZ + '::work'),
     Item('fetcher', sym_fetcher, [], PZ + '::fetcher'),
